@@ -37,6 +37,16 @@ impl OutputStream {
     }
   }
 
+  #[cfg(imdl_verif)]
+  pub(crate) fn verif_new(stream: Box<dyn Write>, style: bool, term: bool) -> OutputStream {
+    Self {
+      active: true,
+      stream,
+      style,
+      term,
+    }
+  }
+
   pub(crate) fn set_use_color(&mut self, use_color: UseColor) {
     match use_color {
       UseColor::Always => self.style = true,
